@@ -1,6 +1,7 @@
 import Goflow
 import Goflow.Gen.C05
 import Goflow.Gen.C03
+import Goflow.Gen.C04
 import Goflow.Gen.Malformed
 /-!
   goflow-model: the executable side of the model.
@@ -31,6 +32,13 @@ def execCall (st : DState) (args : List String) : DState × List String :=
     | some d =>
       match V5.decodeMessageVersion d with
       | .ok p => (st, ["res ok", "v5 " ++ p.toD.render])
+      | .error e => (st, [resLine e])
+  | ["sf", hex] =>
+    match parseHex hex with
+    | none => (st, ["bad-op"])
+    | some d =>
+      match Sflow.decodeMessageVersion d with
+      | .ok p => (st, ["res ok", "sf " ++ p.toD.render])
       | .error e => (st, [resLine e])
   | ["nf", sid, hex] =>
     match parseHex hex with
@@ -70,6 +78,7 @@ def genOps (prop : String) (seed n : Nat) : List String :=
   match prop with
   | "C05" => Gen.run seed (Gen.C05.gen n)
   | "C03" => Gen.run seed (Gen.C03.gen n)
+  | "C04" => Gen.run seed (Gen.C04.gen n)
   | _ => []
 
 def main (args : List String) : IO UInt32 := do
